@@ -929,6 +929,9 @@ def split_to_sequence(
         chunk_sizes = split_value.tolist() if split_value is not None else None
         split_outputs = [f"{output.name}_split_{i}" for i in range(num_outputs)]
         split_values = op.Split(input, split, axis=axis, _outputs=split_outputs)
+    elif split_value is None:
+        # A scalar split whose value is not known: the number of chunks is unknown.
+        return None
     elif split_value.ndim == 1:
         # split into 'size(split)' chunks
         num_outputs = split_value.size
